@@ -109,3 +109,53 @@ Proof.
   intros H2 H3 P2 P3. destruct (ratio_det_chain_rule D ix iy iz q2 q3 H2 H3) as [q1 [H1 E]].
   exists q1. split; [exact H1|]. apply cmi_chain; assumption.
 Qed.
+
+(* non-negativity for all block sizes k_x, k_y, k_z, on the sequential least-squares residual form *)
+Theorem cmi_seq_nonneg D ix iy iz q : ratio_seq D ix iy iz = Some q -> (1 <= q)%Q /\ 0 <= evalR [] (cmi_expr q).
+Proof. intros H. pose proof (ratio_seq_ge_1 D ix iy iz q H) as G. split; [exact G|apply cmi_nonneg, G]. Qed.
+
+(* ---- the statements of Properties/C08.v, bundled ------------------------------------------------- *)
+Theorem scalar_no_Z_bundle D i j q : ratio_det D [i] [j] [] = Some q ->
+  (q * (sc D i i * sc D j j - sc D i j * sc D i j) == sc D i i * sc D j j)%Q /\ (~ sc D i i * sc D j j == 0)%Q /\
+  evalR [] (cmi_expr q) = - / 2 * ln (Q2R (1 - sc D i j * sc D i j / (sc D i i * sc D j j))).
+Proof.
+  intros H. destruct (ratio_det_scalar D i j q H) as [E Hn]. split; [exact E|]. split; [exact Hn|].
+  apply cmi_scalar_no_Z, H.
+Qed.
+
+Theorem scalar_partial_bundle D i j iz q : ratio_res D [i] [j] iz = Some q ->
+  let rx := resid (zbasis D iz) (col D i) in let ry := resid (zbasis D iz) (col D j) in
+  (q * (dot rx rx * dot ry ry - dot rx ry * dot rx ry) == dot rx rx * dot ry ry)%Q /\ (~ dot rx rx * dot ry ry == 0)%Q /\
+  (1 <= q)%Q /\
+  evalR [] (cmi_expr q) = - / 2 * ln (Q2R (1 - dot rx ry * dot rx ry / (dot rx rx * dot ry ry))) /\
+  0 <= evalR [] (cmi_expr q).
+Proof.
+  intros H rx ry. destruct (ratio_res_scalar D i j iz q H) as [E [Hn Hge]]. destruct (cmi_scalar_partial D i j iz q H) as [R1 R2].
+  repeat split; assumption.
+Qed.
+
+Theorem residual_ls_bundle D iz i : let r := resid (zbasis D iz) (col D i) in
+  (dot (ones D) r == 0)%Q /\ Forall (fun k => dot (col D k) r == 0)%Q iz /\
+  forall u, length u = length D -> Forall (fun b => dot b u == 0)%Q (zbasis D iz) -> (dot r u == dot (col D i) u)%Q.
+Proof.
+  intros r. destruct (residual_normal_equations D iz i) as [H1 H2]. split; [exact H1|]. split; [exact H2|].
+  intros u Lu HO. apply residual_same_off_span; assumption.
+Qed.
+
+Theorem affine_bundle c a b D ix iy iz : (~ a == 0)%Q -> Forall (fun r => (c < length r)%nat) D ->
+  ratio_corr (rescale_col c a b D) ix iy iz = ratio_corr D ix iy iz /\
+  ratio_det (rescale_col c a b D) ix iy iz = ratio_det D ix iy iz.
+Proof. intros Ha HD. split; [apply ratio_corr_affine_invariant|apply ratio_det_affine_invariant]; assumption. Qed.
+
+Theorem row_perm_bundle D D' ix iy iz : Permutation.Permutation D D' ->
+  ratio_det D ix iy iz = ratio_det D' ix iy iz /\ ratio_corr D ix iy iz = ratio_corr D' ix iy iz.
+Proof. intros P. split; [apply ratio_det_row_perm|apply ratio_corr_row_perm]; exact P. Qed.
+
+Theorem chain_rule_bundle D ix iy iz q2 q3 :
+  ratio_det D ix iz [] = Some q2 -> ratio_det D ix iy iz = Some q3 ->
+  exists q1, ratio_det D ix (iy ++ iz) [] = Some q1 /\ (q1 == q2 * q3)%Q /\
+             ((0 < q2)%Q -> (0 < q3)%Q -> evalR [] (cmi_expr q1) = evalR [] (cmi_expr q2) + evalR [] (cmi_expr q3)).
+Proof.
+  intros H2 H3. destruct (ratio_det_chain_rule D ix iy iz q2 q3 H2 H3) as [q1 [H1 E]].
+  exists q1. split; [exact H1|]. split; [exact E|]. intros P2 P3. apply cmi_chain; assumption.
+Qed.
